@@ -14,7 +14,7 @@ RULE = ("(a) bit-exact correspondence of both lambda-sum branches and of the Z u
         "for lambda forms (where NumPy's sum order matters) or a non-float scalar type")
 
 SCALAR_TYPES = {"int": int, "float": float, "np.float64": np.float64, "np.float32": np.float32, "np.float16": np.float16,
-                "np.int32": np.int32, "np.int64": np.int64}
+                "np.int32": np.int32, "np.int64": np.int64, "np.longdouble": np.longdouble, "np.uint16": np.uint16, "np.uint64": np.uint64}
 # reduced-precision scalars whose value is NOT a short dyadic number: the reference is the Python float holding the SAME numeric value
 NARROW = [("np.float32", np.float32, 0.11), ("np.float16", np.float16, 0.11), ("np.float32", np.float32, 0.7), ("np.float16", np.float16, 1.3),
           ("np.int8", np.int8, 50), ("np.uint8", np.uint8, 100), ("np.int16", np.int16, 3000), ("np.float32", np.float32, 1e-3)]
@@ -104,7 +104,7 @@ def run(ctx):
                 dy = [1.0, 0.5, 2.0, 0.25, 3.0][i % 5]   # dyadic: exactly representable in every type used below
                 refd = admm.admm_optimize_theta(S, float(dy), W, N).theta
                 for tname, tp in SCALAR_TYPES.items():
-                    if tname in ("int", "np.int32", "np.int64") and dy != int(dy):
+                    if tname in ("int", "np.int32", "np.int64", "np.uint16", "np.uint64") and dy != int(dy):
                         continue
                     try:
                         got = admm.admm_optimize_theta(S, tp(dy), W, N).theta
@@ -132,10 +132,10 @@ def run(ctx):
             dy = [4.0, 0.5, 0.0, 16.0, 1.0][i % 5]
             forms = [("float", float(dy)), ("vector", np.full(T, dy))]
             for tname, tp in SCALAR_TYPES.items():
-                if tname in ("int", "np.int32", "np.int64") and dy != int(dy):
+                if tname in ("int", "np.int32", "np.int64", "np.uint16", "np.uint64") and dy != int(dy):
                     continue
-                if tname == "np.float16":
-                    continue   # Numba cannot type float16 scalars; the front ends normalise scalars (checked end to end below)
+                if tname in ("np.float16", "np.longdouble"):
+                    continue   # Numba cannot type float16 / extended-precision scalars; the front ends normalise scalars (checked end to end below)
                 forms.append((tname, tp(dy)))
             payload.append((tab, forms))
         results = {m: core.run_worker(ctx, "vcheck.props.c18:kernel_forms", payload, mode=m, tag="forms") for m in ("interp", "jit")}
@@ -188,7 +188,7 @@ def run(ctx):
         forms = [("reference", dict(label_switching_cost=4.0, sparsity_weight=0.5, min_meaningful_covariance=0.0))]
         for tname, tp in SCALAR_TYPES.items():
             forms.append(("beta:" + tname, dict(label_switching_cost=tp(4), sparsity_weight=0.5, min_meaningful_covariance=0.0)))
-            if tname not in ("int", "np.int32", "np.int64"):
+            if tname not in ("int", "np.int32", "np.int64", "np.uint16", "np.uint64"):
                 forms.append(("lambda:" + tname, dict(label_switching_cost=4.0, sparsity_weight=tp(0.5), min_meaningful_covariance=0.0)))
             forms.append(("eps:" + tname, dict(label_switching_cost=4.0, sparsity_weight=0.5, min_meaningful_covariance=tp(0))))
         for tname, tp, raw in NARROW[:4]:
